@@ -44,146 +44,181 @@ ASSUMPTIONS = ["each pressure-controlled node is controlled by exactly one PC br
                "scipy.sparse csr_matrix sums duplicate triplets"]
 TECHNIQUE = "affine slice-bound analysis with constant-propagated specialisation, role tables for Jacobian slots, kernel value numbering, namespace typing of pit subscripts"
 
+def _K(ns, n):
+    return ("k", "%s.%s" % (ns, n))
+
+
+def _model(run, heat):
+    """term model of the assembler for one system (cached per run)"""
+    from ..bsm import Model
+    cache = run.__dict__.setdefault("_bsm", {})
+    if heat not in cache:
+        cache[heat] = Model(run.index, heat)
+    return cache[heat]
+
+
+def _outer_axes(c):
+    """(axis-0 array, axis-1 array) of an outer comparison a == b[:, None]"""
+    from ..arrnf import FULL, C
+    def is_col(t):
+        return t[0] == "idx" and len(t[2]) == 2 and t[2][0] == FULL and t[2][1] == C(None)
+    a, b = c[2], c[3]
+    if is_col(a):
+        return a[1], b
+    if is_col(b):
+        return b[1], a
+    return None, None
+
+
 # meaning of the Jacobian slots: (unknown the derivative is taken for)
 VAR_OF = {"JAC_DERIV_DM": "m", "JAC_DERIV_DP": "p_from", "JAC_DERIV_DP1": "p_to", "JAC_DERIV_DM_NODE": "m",
           "JAC_DERIV_MSL": "mslack", "JAC_DERIV_DT": "T_from", "JAC_DERIV_DTOUT": "T_out",
           "JAC_DERIV_DT_NODE": "T_tonode", "JAC_DERIV_DTOUT_NODE": "T_out", "JAC_DERIV_DT_N": "T_node"}
-COLS_OF_VAR = {"m": "branch_matrix_indices", "p_from": "fn", "p_to": "tn", "mslack": "slack_mass_matrix_indices",
-               "T_from": "fn", "T_out": "branch_matrix_indices", "T_tonode": "tn", "T_node": "np.arange(len_n)"}
-INVARIANT_PAIRS = [("pc_branch_mask", "pcn_type"), ("INFEED", "slack_type")]
-
-
-def _sel_group(arm, sel):
-    if sel is None:
-        return None
-    return arm.where_groups.get(sel, sel)
-
-
-def _bounds(segs):
-    b = []
-    for s in segs:
-        b.append(s.lo)
-        b.append(s.hi)
-    return b
+ROLE_OF_VAR = {"m": "BIDX", "p_from": "FN", "p_to": "TN", "mslack": "SIDX", "T_from": "FN", "T_out": "BIDX", "T_tonode": "TN"}
+ROLE_TEXT = {"BIDX": "matrix index of the branch unknown (arange(len_b) + len_n)", "FN": "from node", "TN": "to node",
+             "SIDX": "matrix index of the slack-mass unknown", "NIDX": "node number"}
 
 
 def r1_1(run):
+    from ..bsm import tiling, strip_int_casts, uncast
+    from ..arrnf import FULL, key as tkey, show as tshow
     ix = run.index
-    f = canonical_bsm(ix)
-    run.analysed(f)
     for heat in (False, True):
-        arm = Arm(f, heat)
+        m = _model(run, heat)
+        f = m.f
+        run.analysed(f)
         tag = "heat" if heat else "hyd"
-        data, full = arm.segments("system_data")
-        cols, _ = arm.segments("system_cols")
-        rows, _ = arm.segments("system_rows")
         w = run.where(f, f.node)
+        data, cols, rows, full = m.data, m.cols, m.rows, m.full
         run.stat("segments_%s" % tag, len(data) + len(cols) + len(rows))
         for name, segs in (("data", data), ("cols", cols), ("rows", rows)):
             ok, msg = tiling(segs, full)
             run.ob("%s|%s|tiles-[0,full_len)" % (tag, name), ok and len(segs) >= (6 if heat else 9),
                    "the %d system_%s segments tile [0, full_len) without gap or overlap" % (len(segs), name), w, detail=msg)
+        # the masks with a documented component invariant: #PC nodes == #PC branches, #infeed nodes == #fixed-T nodes
+        npit, bpit = ("n", "node_pit"), ("n", "branch_pit")
+        def eqmask(pit, ns, col, typ):
+            a, b = sorted([("idx", pit, (FULL, _K(ns, col))), _K(ns if ns == "idx_node" or typ != "PC" else ns, typ)], key=tkey)
+            return ("cmp", "==", a, b)
+        if not heat:
+            inv = (m.count(eqmask(npit, "idx_node", "NODE_TYPE", "PC")), m.count(eqmask(bpit, "idx_branch", "BRANCH_TYPE", "PC")))
+        else:
+            infeed = ("call", ("attr", ("idx", npit, (FULL, _K("idx_node", "INFEED"))), "astype"), (("x", "builtins.bool"),), ())
+            inv = (m.count(infeed), m.count(m.slack_cond()))
+        counts = {}
+        def seg_key(kind, s_):
+            lab = s_.label()
+            counts[(kind, lab)] = counts.get((kind, lab), 0) + 1
+            return "%s#%d" % (lab, counts[(kind, lab)])
         # lengths
         for name, segs in (("data", data), ("cols", cols), ("rows", rows)):
-            for s in segs:
-                if s.const is not None:
+            for s_ in segs:
+                k_ = seg_key(name, s_)
+                if s_.desc.const is not None:
                     continue
-                ln = s.hi - s.lo
-                ok = ln == s.value_len
+                ln = s_.hi - s_.lo
+                ok = ln == s_.value_len
                 note = ""
-                if not ok:
-                    txt = str(ln) + " / " + str(s.value_len)
-                    if any(a in txt and b in txt for a, b in INVARIANT_PAIRS):
-                        ok, note = True, " (equal by the documented component invariant)"
-                        run.stat("segment_lengths_by_invariant")
-                run.ob("%s|%s|length|%s" % (tag, name, U(s.stmt.targets[0]).replace(" ", "")), ok,
-                       "segment length %s equals the length of its right-hand side %s%s" % (ln, s.value_len, note),
-                       run.where(f, s.stmt))
+                if not ok and {str(ln), str(s_.value_len)} == {str(inv[0]), str(inv[1])}:
+                    ok, note = True, " (equal by the documented component invariant)"
+                    run.stat("segment_lengths_by_invariant")
+                run.ob("%s|%s|length|%s" % (tag, name, k_), ok,
+                       "segment length %s equals the length of its right-hand side %s%s" % (ln, s_.value_len, note), w)
         # pairing of data / cols / rows over the same interval
-        cb, rb = _bounds(cols), _bounds(rows)
+        counts.clear()
+        slack_name = m.mask_name(m.slack_cond())
         for d in data:
             cs = [c for c in cols if _within(c, d)]
             rs = [r for r in rows if _within(r, d)]
-            key = "%s|pair|%s" % (tag, U(d.stmt.targets[0]).replace(" ", ""))
+            kk = "%s|pair|%s" % (tag, seg_key("pair", d))
             okc, msgc = _covers(cs, d)
             okr, msgr = _covers(rs, d)
             if not (okc and okr):
-                run.ob(key + "|covered", False, "column and row segments cover the data segment exactly", run.where(f, d.stmt),
-                       detail=msgc if not okc else msgr)
+                run.ob(kk + "|covered", False, "column and row segments cover the data segment exactly", w, detail=msgc if not okc else msgr)
                 continue
-            if (len(cs) > 1 or len(rs) > 1) and d.const is None:
-                run.ob(key + "|split-only-constant", False, "only constant-valued data segments are split", run.where(f, d.stmt))
+            dd = d.desc
+            if (len(cs) > 1 or len(rs) > 1) and dd.const is None:
+                run.ob(kk + "|split-only-constant", False, "only constant-valued data segments are split", w)
                 continue
             for c, r in zip(cs, rs):
-                if d.const is None:
-                    gs = {_sel_group(arm, x.selector) for x in (d, c, r)}
-                    if d.column == "JAC_DERIV_MSL":
-                        # slack-mass unknown k belongs to slack_nodes[k]: node data selected by slack_nodes, indices unselected
-                        gs = {0} if (d.selector == "slack_nodes" and c.selector is None and r.selector is None
-                                     and c.base == r.base == "slack_mass_matrix_indices") else {0, 1}
-                    run.ob(key + "|same-selector", len(gs) == 1,
-                           "data, column and row entries are selected by the same mask / index group: %s"
-                           % sorted(map(str, (d.selector, c.selector, r.selector))), run.where(f, d.stmt))
-                    var = VAR_OF.get(d.column)
-                    want_col = COLS_OF_VAR.get(var)
-                    run.ob(key + "|column-of-unknown", want_col is not None and c.base == want_col,
-                           "entries of %s (derivative wrt. %s) sit in the matrix column of that unknown (%s)"
-                           % (d.column, var, want_col), run.where(f, c.stmt), detail="cols from %s" % c.base)
-                    # equation (row) role and sign
-                    if d.column in ("JAC_DERIV_DM_NODE",):
-                        side = None
-                        if r.base in ("fn", "tn"):
-                            side = "from" if r.base == "fn" else "to"
-                            seldef = U(arm.arr.get(d.selector, ast.Constant(value=None))) if d.selector in arm.arr else ""
-                            uses = ("fn" in seldef) if side == "from" else ("tn" in seldef)
-                        elif r.base == "slack_mass_matrix_indices":
-                            wdef = U(arm.arr.get(d.selector, ast.Constant(value=None)))
-                            side = "from" if "FROM_NODE" in wdef else ("to" if "TO_NODE" in wdef else None)
-                            uses = side is not None
-                            # rows use the slack-axis output of np.where, data/cols the branch-axis output
-                            tg = [st for st in arm.stmts if isinstance(st, ast.Assign) and isinstance(st.targets[0], ast.Tuple)
-                                  and d.selector in [U(e) for e in st.targets[0].elts]]
-                            pos_ok = False
-                            if tg:
-                                names = [U(e) for e in tg[0].targets[0].elts]
-                                cmp_ = tg[0].value.args[0]
-                                slack_axis0 = isinstance(cmp_, ast.Compare) and "[:, None]" in U(cmp_.comparators[0]) \
-                                    and "slack_nodes" in U(cmp_.comparators[0])
-                                pos_ok = slack_axis0 and names.index(d.selector) == 1 and r.selector == names[0] \
-                                    and c.selector == names[1]
-                            run.ob(key + "|where-axes", pos_ok,
-                                   "rows use the slack-axis output and data/cols the branch-axis output of the same np.where",
-                                   run.where(f, r.stmt))
-                        else:
-                            uses = False
-                        run.ob(key + "|node-equation-side", side is not None and uses,
-                               "node-equation rows (%s) belong to the %s node the selector is defined on" % (r.base, side),
-                               run.where(f, r.stmt))
-                        run.ob(key + "|sign", side is not None and d.sign == (-1 if side == "from" else 1),
-                               "mass flow leaves the from node (-) and enters the to node (+): sign %+d on the %s side"
-                               % (d.sign, side), run.where(f, d.stmt))
-                    elif d.column in ("JAC_DERIV_DT_NODE", "JAC_DERIV_DTOUT_NODE"):
-                        run.ob(key + "|row-of-equation", r.base == "tn" and d.sign == 1,
-                               "thermal node terms sit in the row of the (flow-corrected) to node", run.where(f, r.stmt))
-                    elif d.column == "JAC_DERIV_DT_N":
-                        run.ob(key + "|row-of-equation", r.base == "np.arange(len_n)" and r.selector == d.selector,
-                               "the node's own derivative sits on the diagonal of its row", run.where(f, r.stmt))
-                    elif d.column == "JAC_DERIV_MSL":
-                        run.ob(key + "|row-of-equation", r.base == "slack_mass_matrix_indices" and d.sign == 1,
-                               "the slack-mass derivative sits on the diagonal of the slack-mass row", run.where(f, r.stmt))
+                cd, rd = c.desc, r.desc
+                if dd.const is None:
+                    col = (dd.column or "").split(".")[-1]
+                    # --- the three arrays select the same entries
+                    if col == "JAC_DERIV_MSL":
+                        same = dd.sel == ("pos", slack_name) and cd.sel is None and rd.sel is None and cd.role == rd.role == "SIDX"
+                    elif dd.sel is not None and dd.sel[0] == "where":
+                        same = cd.sel is not None and rd.sel is not None and cd.sel[0] == rd.sel[0] == "where" and \
+                            dd.sel[1] == cd.sel[1] == rd.sel[1]
+                    elif col == "JAC_DERIV_DT_N":
+                        same = dd.sel is not None and dd.sel[0] == "mask" and cd.sel is None and rd.sel is None \
+                            and cd.role == rd.role == ("pos", dd.sel[1])
                     else:
-                        run.ob(key + "|row-of-equation", r.base == "branch_matrix_indices" and d.sign == 1,
-                               "branch derivatives sit in the row of the branch equation", run.where(f, r.stmt))
+                        same = dd.sel == cd.sel == rd.sel
+                    run.ob(kk + "|same-selector", same,
+                           "data, column and row entries are selected by the same mask / index group: %s"
+                           % [x and x[:2] for x in (dd.sel, cd.sel, rd.sel)], w)
+                    var = VAR_OF.get(col)
+                    if var == "T_node":
+                        okcol, want_txt = (dd.sel is not None and cd.role == ("pos", dd.sel[1])), "node number of the selected nodes"
+                    else:
+                        want = ROLE_OF_VAR.get(var)
+                        okcol, want_txt = (want is not None and cd.role == want), ROLE_TEXT.get(want, "?")
+                    run.ob(kk + "|column-of-unknown", okcol,
+                           "entries of %s (derivative wrt. %s) sit in the matrix column of that unknown (%s)" % (col, var, want_txt), w,
+                           detail="cols from %s" % (cd.role,))
+                    # --- equation (row) role and sign
+                    if col == "JAC_DERIV_DM_NODE":
+                        side, uses = None, False
+                        if rd.role in ("FN", "TN"):
+                            side = "from" if rd.role == "FN" else "to"
+                            endcol = _K("idx_branch", "FROM_NODE" if side == "from" else "TO_NODE")
+                            a_, b_ = sorted([("idx", npit, (("idx", bpit, (FULL, endcol)), _K("idx_node", "NODE_TYPE"))), _K("idx_node", "P")], key=tkey)
+                            want_mask = ("cmp", "!=", a_, b_)
+                            uses = dd.sel is not None and dd.sel[0] == "mask" and tkey(m.mask_term(dd.sel[1])) == tkey(want_mask)
+                        elif rd.role == "SIDX" and dd.sel is not None and dd.sel[0] == "where":
+                            W = m.mask_term(dd.sel[1])
+                            ax0, ax1 = _outer_axes(W[2][0])
+                            pos_ok = False
+                            if ax0 is not None:
+                                for sd, cn in (("from", "FROM_NODE"), ("to", "TO_NODE")):
+                                    if tkey(ax1) == tkey(("idx", bpit, (FULL, _K("idx_branch", cn)))):
+                                        side = sd
+                                uses = side is not None
+                                slack_axis0 = m.role(ax0) == ("pos", slack_name)
+                                pos_ok = slack_axis0 and dd.sel[2] == 1 and cd.sel[2] == 1 and rd.sel[2] == 0
+                            run.ob(kk + "|where-axes", pos_ok,
+                                   "rows use the slack-axis output and data/cols the branch-axis output of the same np.where", w)
+                        run.ob(kk + "|node-equation-side", side is not None and uses,
+                               "node-equation rows (%s) belong to the %s node the selector is defined on" % (rd.role, side), w)
+                        run.ob(kk + "|sign", side is not None and dd.sign == (-1 if side == "from" else 1),
+                               "mass flow leaves the from node (-) and enters the to node (+): sign %+d on the %s side" % (dd.sign, side), w)
+                    elif col in ("JAC_DERIV_DT_NODE", "JAC_DERIV_DTOUT_NODE"):
+                        run.ob(kk + "|row-of-equation", rd.role == "TN" and dd.sign == 1,
+                               "thermal node terms sit in the row of the (flow-corrected) to node", w)
+                    elif col == "JAC_DERIV_DT_N":
+                        run.ob(kk + "|row-of-equation", dd.sel is not None and rd.role == ("pos", dd.sel[1]) and dd.sign == 1,
+                               "the node's own derivative sits on the diagonal of its row", w)
+                    elif col == "JAC_DERIV_MSL":
+                        run.ob(kk + "|row-of-equation", rd.role == "SIDX" and dd.sign == 1,
+                               "the slack-mass derivative sits on the diagonal of the slack-mass row", w)
+                    else:
+                        run.ob(kk + "|row-of-equation", rd.role == "BIDX" and rd.sel is None and dd.sign == 1,
+                               "branch derivatives sit in the row of the branch equation", w)
                 else:
                     # fixed-value identity rows
-                    ok = d.const == 1
+                    ok = dd.const == 1
                     if not heat:
-                        ok = ok and (c.base, r.base) in (("pc_nodes", "pc_matrix_indices"), ("slack_nodes", "slack_nodes"))
+                        pcn = ("pos", m.mask_name(eqmask(npit, "idx_node", "NODE_TYPE", "PC")))
+                        pcb = ("mask", m.mask_name(eqmask(bpit, "idx_branch", "BRANCH_TYPE", "PC")))
+                        sl = ("pos", slack_name)
+                        ok = ok and ((cd.role == pcn and rd.role == "BIDX" and rd.sel == pcb) or (cd.role == sl and rd.role == sl and cd.sel is None and rd.sel is None))
                         txt = "fixed-pressure rows: 1 on (slack, slack) and on (PC branch row, PC node column)"
                     else:
-                        ok = ok and (c.base, r.base) == ("slack_nodes", "infeed_node")
+                        ok = ok and cd.role == ("pos", slack_name) and rd.role == ("pos", m.mask_name(infeed))
                         txt = "fixed-temperature rows: 1 at (infeed node row, fixed-temperature node column)"
-                    run.ob(key + "|identity|%s,%s" % (r.base, c.base), ok, txt, run.where(f, c.stmt))
+                    run.ob(kk + "|identity|%s" % ("pc" if (not heat and isinstance(rd.role, str)) else "fixed"), ok, txt, w,
+                           detail="rows %s[%s], cols %s" % (rd.role, rd.sel and rd.sel[:2], cd.role))
     run.floor(90)
 
 
@@ -208,73 +243,156 @@ def _covers(parts, d):
     return cur == d.hi, "partner segments end at %s instead of %s" % (cur, d.hi)
 
 
+def _neg(t):
+    """x when t is -x / x * -1"""
+    if t[0] == "u" and t[1] == "-":
+        return t[2]
+    if t[0] == "opn" and t[1] == "*":
+        cs = [x for x in t[2] if x[0] == "c" and x[1] in (-1, -1.0)]
+        rest = [x for x in t[2] if x not in cs]
+        if len(cs) == 1 and len(rest) == 1:
+            return rest[0]
+    return None
+
+
 def r1_2(run):
-    ix = run.index
-    f = canonical_bsm(ix)
-    arm = Arm(f, False)
+    """signs and order of the load-vector entries, on the term model (names and temporaries do not matter)"""
+    from ..bsm import strip_int_casts
+    from ..arrnf import FULL, C, key as tkey, show as tshow
+    m = _model(run, False)
+    f = m.f
     w = run.where(f, f.node)
-    groups = {}
-    for st in arm.stmts:
-        if isinstance(st, ast.Assign) and isinstance(st.targets[0], ast.Tuple) and isinstance(st.value, ast.Call) \
-                and callee_name(st.value) == "_sum_by_group":
-            names = [U(e) for e in st.targets[0].elts]
-            args = st.value.args
-            groups[names[1]] = {"keys": names[0], "index": U(args[1]), "value": U(args[2]).replace(" ", ""), "stmt": st}
-    updates = []
-    order = []
-    for st in arm.stmts:
-        if isinstance(st, ast.AugAssign) and isinstance(st.target, ast.Subscript) and U(st.target.value) == "load_vector":
-            updates.append((U(st.target.slice).replace(" ", ""), "-" if isinstance(st.op, ast.Sub) else "+", U(st.value).replace(" ", ""), st))
-            order.append(("aug", st))
-        elif isinstance(st, ast.Assign) and isinstance(st.targets[0], ast.Subscript) and U(st.targets[0].value) == "load_vector":
-            order.append(("set", st))
-    want = [("fn", "LOAD_VEC_NODES_FROM", "-", "fn_unique"), ("tn", "LOAD_VEC_NODES_TO", "+", "tn_unique"),
-            ("slack_masses_from", "LOAD_VEC_NODES_FROM", "-", None), ("slack_masses_to", "LOAD_VEC_NODES_TO", "+", None)]
-    for index, col, sign, _ in want:
-        cand = [(k, v) for k, v in groups.items() if v["index"] == index and col in v["value"]]
-        ok = len(cand) == 1
-        up = None
-        if ok:
-            sums, info = cand[0]
-            up = [u for u in updates if u[2] == sums]
-            ok = len(up) == 1 and up[0][1] == sign and info["keys"] in up[0][0]
-            if index.startswith("slack_masses"):
-                ok = ok and "slack_mass_matrix_indices[" in up[0][0] and \
-                    ("slack_branches_from" if "from" in index else "slack_branches_to") in info["value"]
-        run.ob("load-sign|%s" % index, ok,
-               "the group sum of %s over %s enters the load vector with sign %s (the sign of its Jacobian entry)" % (col, index, sign),
-               run.where(f, cand[0][1]["stmt"]) if cand else w)
-    ms = [u for u in updates if "MDOTSLACKINIT" in u[2]]
-    run.ob("load-sign|mdotslack", len(ms) == 1 and ms[0][1] == "-" and ms[0][0] == "slack_mass_matrix_indices"
-           and ms[0][2] == "node_pit[slack_nodes,MDOTSLACKINIT]",
+    npit, bpit = ("n", "node_pit"), ("n", "branch_pit")
+    ent = m.load_entries()
+    slack_name = m.mask_name(m.slack_cond())
+    bcolm = lambda rows, c: ("idx", bpit, (rows, _K("idx_branch", c)))
+    ncolm = lambda rows, c: ("idx", npit, (rows, _K("idx_node", c)))
+
+    def rows_role(t):
+        return m.describe(t)
+
+    def find_group(index_role, col, where_side=None):
+        """the augmented store that adds the group sum of column `col` over the index vector with the given role"""
+        out = []
+        for e in ent:
+            if e["op"] not in ("-", "+"):
+                continue
+            g_ = m.group_sum(e["value"])
+            if g_ is None or g_[1] != 1:
+                continue
+            call = g_[0]
+            idxv, vals = strip_int_casts(call[2][1]), strip_int_casts(call[2][2])
+            if where_side is None:
+                if m.role(idxv) != index_role or tkey(vals) != tkey(bcolm(FULL, col)):
+                    continue
+                # scattered at the group keys of the same call
+                rk = m.group_sum(e["rows"])
+                if rk is None or rk[1] != 0 or tkey(strip_int_casts(rk[0])) != tkey(strip_int_casts(call)):
+                    continue
+            else:
+                # slack rows: groups over the slack-axis output of the np.where that pairs slack nodes with branch ends,
+                # values of the branches of the other output, scattered through the slack-mass matrix indices
+                from ..bsm import where_of, is_outer_compare
+                wi = where_of(idxv)
+                if wi is None or wi[1] != 0 or not is_outer_compare(wi[0][2][0]):
+                    continue
+                ax0, ax1 = _outer_axes(wi[0][2][0])
+                if ax0 is None or m.role(ax0) != ("pos", slack_name) or tkey(ax1) != tkey(bcolm(FULL, where_side)):
+                    continue
+                if tkey(vals) != tkey(bcolm(("proj", wi[0], 1), col)):
+                    continue
+                r_ = e["rows"]
+                if not (r_[0] == "idx" and len(r_[2]) == 1 and m.role(r_[1]) == "SIDX"):
+                    continue
+                rk = m.group_sum(r_[2][0])
+                if rk is None or rk[1] != 0 or tkey(strip_int_casts(rk[0])) != tkey(strip_int_casts(call)):
+                    continue
+            out.append(e)
+        return out
+
+    node_sums = []
+    for label, role, col, sign, side in (("fn", "FN", "LOAD_VEC_NODES_FROM", "-", None), ("tn", "TN", "LOAD_VEC_NODES_TO", "+", None),
+                                         ("slack_masses_from", None, "LOAD_VEC_NODES_FROM", "-", "FROM_NODE"),
+                                         ("slack_masses_to", None, "LOAD_VEC_NODES_TO", "+", "TO_NODE")):
+        cand = find_group(role, col, side)
+        ok = len(cand) == 1 and cand[0]["op"] == sign
+        if side is None:
+            node_sums.extend(cand)
+        run.ob("load-sign|%s" % label, ok,
+               "the group sum of %s over %s enters the load vector with sign %s (the sign of its Jacobian entry)" % (col, label, sign),
+               run.where(f, cand[0]["node"]) if cand else w, detail="%d candidate stores" % len(cand))
+    sidx = [e for e in ent if m.role(e["rows"]) == "SIDX"]
+    ms = [e for e in sidx if e["op"] is not None and tkey(e["value"]) == tkey(ncolm(("proj", ("call", ("x", "numpy.where"), (m.slack_cond(),), ()), 0), "MDOTSLACKINIT"))]
+    run.ob("load-sign|mdotslack", len(ms) == 1 and ms[0]["op"] == "-",
            "the slack mass flow enters its row with sign - (JAC_DERIV_MSL = -1)", w)
-    sets = {U(st.targets[0].slice).replace(" ", ""): (U(st.value).replace(" ", ""), st) for k, st in order if k == "set"}
-    run.ob("load|nodes-start-from-minus-LOAD", sets.get(":len_n", ("",))[0] in ("node_pit[:,LOAD]*-1", "node_pit[:,LOAD]*(-1)", "-node_pit[:,LOAD]"),
-           "node rows start from -LOAD", w, detail=str(sets.get(":len_n")))
-    run.ob("load|slack-rows-start-from-minus-LOAD", sets.get("slack_mass_matrix_indices", ("",))[0] in
-           ("node_pit[slack_nodes,LOAD]*-1", "node_pit[slack_nodes,LOAD]*(-1)", "-node_pit[slack_nodes,LOAD]"),
-           "slack-mass rows start from -LOAD of the slack node", w)
-    run.ob("load|branch-rows", sets.get("len_n:len_b+len_n", ("",))[0] == "branch_pit[:,LOAD_VEC_BRANCHES]",
+    sets = [e for e in ent if e["op"] is None]
+    def is_slice(t, lo, hi):
+        if t[0] != "slice" or t[3] != C(None):
+            return False
+        try:
+            a = m.aff(t[1]) if t[1] != C(None) else None
+            b = m.aff(t[2]) if t[2] != C(None) else None
+        except Exception:
+            return False
+        return (a is None and lo is None or (a is not None and lo is not None and a == lo) or (a is not None and lo is None and a.is_zero())) and \
+            (b is None and hi is None or (b is not None and hi is not None and b == hi) or (b is None and hi is not None and hi == m.load_size))
+    start = [e for e in sets if is_slice(e["rows"], None, m.len_n)]
+    ok = len(start) == 1 and _neg(start[0]["value"]) is not None and tkey(_neg(start[0]["value"])) == tkey(ncolm(FULL, "LOAD"))
+    run.ob("load|nodes-start-from-minus-LOAD", ok, "node rows start from -LOAD", w, detail=tshow(start[0]["value"])[:100] if start else None)
+    slack_pos = ("proj", ("call", ("x", "numpy.where"), (m.slack_cond(),), ()), 0)
+    s0 = [e for e in sidx if e["op"] is None]
+    ok = len(s0) == 1 and _neg(s0[0]["value"]) is not None and tkey(_neg(s0[0]["value"])) == tkey(ncolm(slack_pos, "LOAD"))
+    run.ob("load|slack-rows-start-from-minus-LOAD", ok, "slack-mass rows start from -LOAD of the slack node", w)
+    if ok:
+        later = [e for e in sidx if e["op"] is not None] + find_group(None, "LOAD_VEC_NODES_FROM", "FROM_NODE") + find_group(None, "LOAD_VEC_NODES_TO", "TO_NODE")
+        run.ob("load|slack-rows-start-before-sums", all(e["seq"] > s0[0]["seq"] for e in later),
+               "the slack-mass rows are initialised before the slack group sums are added", w)
+    br = [e for e in sets if is_slice(e["rows"], m.len_n, m.len_n + m.len_b)]
+    run.ob("load|branch-rows", len(br) == 1 and tkey(br[0]["value"]) == tkey(bcolm(FULL, "LOAD_VEC_BRANCHES")),
            "branch rows are LOAD_VEC_BRANCHES", w)
     # overrides after the sums
-    pos = {id(st): i for i, (k, st) in enumerate(order)}
-    for target in ("slack_nodes", "pc_matrix_indices"):
-        z = [st for k, st in order if k == "set" and U(st.targets[0].slice) == target and U(st.value) == "0"]
-        node_sums = [u[3] for u in updates if u[0] in ("fn_unique", "tn_unique")]
-        ok = len(z) == 1 and node_sums and all(pos[id(z[0])] > pos[id(s)] for s in node_sums)
-        run.ob("load|override-after-sums|%s" % target, ok,
-               "load_vector[%s] = 0 is executed after the nodal group sums" % target, w)
+    a_, b_ = sorted([("idx", bpit, (FULL, _K("idx_branch", "BRANCH_TYPE"))), _K("idx_branch", "PC")], key=tkey)
+    pcb = ("mask", m.mask_name(("cmp", "==", a_, b_)))
+    for target, test in (("slack_nodes", lambda d: d.role == ("pos", slack_name) and d.sel is None),
+                         ("pc_matrix_indices", lambda d: d.role == "BIDX" and d.sel == pcb)):
+        z = []
+        for e in sets:
+            if e["value"] == C(0):
+                try:
+                    d = m.describe(e["rows"])
+                except Exception:
+                    continue
+                if test(d):
+                    z.append(e)
+        ok = len(z) == 1 and len(node_sums) == 2 and all(z[0]["seq"] > s_["seq"] for s_ in node_sums)
+        run.ob("load|override-after-sums|%s" % target, ok, "load_vector[%s] = 0 is executed after the nodal group sums" % target, w)
     # thermal arm
-    arm = Arm(f, True)
-    tsum = [st for st in arm.stmts if isinstance(st, ast.Assign) and isinstance(st.value, ast.Call) and callee_name(st.value) == "_sum_by_group"]
-    ok = len(tsum) == 1 and U(tsum[0].value.args[1]) == "tn" and "LOAD_VEC_NODES_TO_T" in U(tsum[0].value.args[2])
-    aug = [st for st in arm.stmts if isinstance(st, ast.AugAssign) and U(st.target.value) == "load_vector"]
-    ok = ok and len(aug) == 1 and isinstance(aug[0].op, ast.Add)
-    z = [st for st in arm.stmts if isinstance(st, ast.Assign) and U(st.targets[0]).replace(" ", "") == "load_vector[infeed_node]"
-         and U(st.value) == "0"]
-    ok = ok and len(z) == 1 and z[0].lineno > aug[0].lineno
+    mt = _model(run, True)
+    ent = mt.load_entries()
+    aug = [e for e in ent if e["op"] is not None]
+    ok = len(aug) == 1 and aug[0]["op"] == "+"
+    if ok:
+        g_ = mt.group_sum(aug[0]["value"])
+        ok = g_ is not None and g_[1] == 1 and mt.role(strip_int_casts(g_[0][2][1])) == "TN" \
+            and tkey(strip_int_casts(g_[0][2][2])) == tkey(bcolm(FULL, "LOAD_VEC_NODES_TO_T"))
+        rk = mt.group_sum(aug[0]["rows"])
+        ok = ok and rk is not None and rk[1] == 0 and tkey(strip_int_casts(rk[0])) == tkey(strip_int_casts(g_[0]))
+    infeed = ("call", ("attr", ("idx", npit, (FULL, _K("idx_node", "INFEED"))), "astype"), (("x", "builtins.bool"),), ())
+    z = []
+    for e in ent:
+        if e["op"] is None and e["value"] == C(0):
+            try:
+                d = mt.describe(e["rows"])
+            except Exception:
+                continue
+            if d.role == ("pos", mt.mask_name(infeed)):
+                z.append(e)
+    ok = ok and len(z) == 1 and z[0]["seq"] > aug[0]["seq"]
+    start = [e for e in ent if e["op"] is None and e["rows"][0] == "slice" and e["rows"][1] == C(None) and _neg(e["value"]) is not None
+             and tkey(_neg(e["value"])) == tkey(ncolm(FULL, "LOAD_T"))]
+    ok = ok and len(start) == 1
     run.ob("thermal|load-vector", ok,
-           "thermal node rows: -LOAD_T + group sum of LOAD_VEC_NODES_TO_T over the to nodes, infeed rows zeroed afterwards", w)
+           "thermal node rows: -LOAD_T + group sum of LOAD_VEC_NODES_TO_T over the to nodes, infeed rows zeroed afterwards", run.where(mt.f, mt.f.node))
     run.floor(11)
 
 
@@ -304,49 +422,30 @@ def r1_3(run):
 
 def r1_4(run):
     ix = run.index
-    f = canonical_bsm(ix)
-    arm = Arm(f, False)
+    m = _model(run, False)
+    f = m.f
     w = run.where(f, f.node)
-    len_n, len_b = Poly.sym("len", "node_pit"), Poly.sym("len", "branch_pit")
-
-    def offset(name):
-        e = arm.arr.get(name)
-        if isinstance(e, ast.BinOp) and isinstance(e.op, ast.Add):
-            # np.arange(k) + off ...
-            terms = []
-
-            def flat(x):
-                if isinstance(x, ast.BinOp) and isinstance(x.op, ast.Add):
-                    flat(x.left)
-                    flat(x.right)
-                else:
-                    terms.append(x)
-            flat(e)
-            ar = [t for t in terms if isinstance(t, ast.Call) and U(t.func) == "np.arange"]
-            rest = [t for t in terms if t not in ar]
-            if len(ar) == 1:
-                off = Poly()
-                for t in rest:
-                    off = off + arm.scalar(t)
-                return arm.scalar(ar[0].args[0]), off
-        return None, None
-    n_b, off_b = offset("branch_matrix_indices")
-    n_s, off_s = offset("slack_mass_matrix_indices")
-    run.ob("assembler|branch-unknowns-at-[len_n,len_n+len_b)", n_b == len_b and off_b == len_n,
-           "branch unknown i has matrix index len_n + i", w, detail="%s + arange(%s)" % (off_b, n_b))
-    n_sl = Poly.sym("count", arm.canon(arm.arr["slack_nodes"].value.args[0])) if isinstance(arm.arr.get("slack_nodes"), ast.Subscript) else None
-    run.ob("assembler|slack-unknowns-at-[len_n+len_b,...)", off_s == len_n + len_b and n_s is not None,
-           "slack-mass unknown k has matrix index len_n + len_b + k", w, detail="%s + arange(%s)" % (off_s, n_s))
+    len_n, len_b = m.len_n, m.len_b
+    roles = {(d_.desc.role if isinstance(d_.desc.role, str) else d_.desc.role[0]) for d_ in m.cols + m.rows if d_.desc.role is not None}
+    run.ob("assembler|branch-unknowns-at-[len_n,len_n+len_b)", "BIDX" in roles,
+           "branch unknown i has matrix index len_n + i (an index vector np.arange(len_b) + len_n is used for the branch columns)", w,
+           detail=str(sorted(roles)))
+    n_s = m.count(m.slack_cond())
+    run.ob("assembler|slack-unknowns-at-[len_n+len_b,...)", "SIDX" in roles,
+           "slack-mass unknown k has matrix index len_n + len_b + k, k running over the slack nodes", w, detail=str(sorted(roles)))
     # shape of matrix and load vector
-    shapes = [kw.value for c in calls(f.node, "csr_matrix") for kw in c.keywords if kw.arg == "shape"]
+    shapes = [dict(c.kw).get("shape") for c in m.r.calls() if c.fn[0] == "x" and c.fn[1].endswith("csr_matrix")]
     ok = len(shapes) == 2
     for sh in shapes:
-        dims = [arm.scalar(e) for e in sh.elts]
-        ok = ok and dims[0] == dims[1] == len_n + len_b + (n_s if n_s is not None else Poly())
+        try:
+            dims = [m.aff(e) for e in sh[1]] if sh is not None and sh[0] == "tuple" else []
+        except AnalysisError:
+            dims = []
+        ok = ok and len(dims) == 2 and dims[0] == dims[1] == len_n + len_b + n_s
     run.ob("assembler|matrix-shape", ok, "the matrix is square of size len_n + len_b + number of slack nodes", w)
-    lv = [st for st in arm.stmts if isinstance(st, ast.Assign) and U(st.targets[0]) == "load_vector"]
-    ok = len(lv) == 1 and isinstance(lv[0].value, ast.Call) and arm.scalar(lv[0].value.args[0]) == len_n + len_b + (n_s or Poly())
-    run.ob("assembler|load-vector-size", ok, "the load vector has the size of the matrix", w)
+    m.load_entries()
+    run.ob("assembler|load-vector-size", m.load_size == len_n + len_b + n_s, "the load vector has the size of the matrix", w,
+           detail=str(m.load_size))
     # solver side: which slice of the solution vector updates which unknown (whole-function terms, arrnf)
     from ..arrnf import ANF, C, FULL, base_of, key as tkey, match, show as tshow, walk
 
@@ -394,14 +493,13 @@ def r1_4(run):
         want_rows = ("proj", ("call", ("x", "numpy.where"), (("cmp", "==", ("idx", npit, (FULL, ("k", "idx_node.NODE_TYPE"))), ("k", "idx_node.P")),), ()), 0)
         alt = ("proj", ("call", ("x", "numpy.where"), (("cmp", "==", ("k", "idx_node.P"), ("idx", npit, (FULL, ("k", "idx_node.NODE_TYPE")))),), ()), 0)
         ok = tkey(rows) in (tkey(want_rows), tkey(alt))
-    adef = U(arm.arr.get("slack_nodes")).replace(" ", "")
-    for k, v in (("ntyp_col", "NODE_TYPE"), ("slack_type", "P")):
-        adef = adef.replace(k, v)
-    run.ob("slack-node-definition-agrees", ok and adef == "np.where(node_pit[:,NODE_TYPE]==P)[0]",
-           "assembler and solver use the same slack-node set: %s" % adef, ws)
-    tup = arm.arr.get("ntyp_col"), arm.arr.get("slack_type")
-    run.ob("hydraulic-type-columns", U(tup[0]) == "NODE_TYPE" and U(tup[1]) == "P",
-           "in the hydraulic arm the type column/constant are NODE_TYPE / P", w)
+    slack_name = m.mask_name(m.slack_cond())
+    uses = any(d_.desc.role == ("pos", slack_name) for d_ in m.cols) and any(d_.desc.sel == ("pos", slack_name) for d_ in m.data)
+    run.ob("slack-node-definition-agrees", ok and uses,
+           "assembler and solver use the same slack-node set: positions of node_pit[:, NODE_TYPE] == P", ws)
+    mt = _model(run, True)
+    run.ob("hydraulic-type-columns", any(d_.desc.role == ("pos", mt.mask_name(mt.slack_cond())) for d_ in mt.cols),
+           "the thermal arm fixes the nodes with NODE_TYPE_T == T, the hydraulic arm those with NODE_TYPE == P", w)
     # thermal solver side
     st_ = ix.func(P + ".solve_temperature")
     run.analysed(st_)
